@@ -173,6 +173,11 @@ ApplyView(e) ==
          Res(/\ e.ret = "ok" /\ e.format = "f" /\ e.itemsize = 4 /\ e.ndim = 2
              /\ \/ (e.shape = <<M, e.K>> /\ e.list = e.logical)
                 \/ (e.shape = <<e.K, M>> /\ e.list = Transpose(e.logical, M, e.K)), "scoring_matrix_view")
+    [] e.kind = "sf_same" ->
+         \* the table of a reverse complement (taken after the forward table was requested) against the table of a matrix
+         \* built afresh from the same scores and background: every 37th entry of both
+         Res(/\ e.ret = "ok" /\ e.format = "d" /\ e.itemsize = 8 /\ e.ndim = 1
+             /\ e.shape = <<e.M * 1000 + 1>> /\ e.list = e.logical, "survival_function_of_another_matrix")
     [] e.kind = "sf" ->
          Res(/\ e.ret = "ok" /\ e.format = "d" /\ e.itemsize = 8 /\ e.ndim = 1
              /\ e.shape = <<e.logical[1] * 1000 + 1>> /\ e.list[3] = e.logical[1] * 1000 + 1
